@@ -15,6 +15,10 @@ def run_catalogue(chk: Check, select, algs=None, extra_flags=None):
     cat = catalogue.prop_catalogue(chk.tier)
     batch = []
     seen_status = {}
+    from nusym.runner import load_known
+
+    known = [k for k in load_known() if k.get("harness", "prop") == "prop" and (k["prop"] == chk.pid or k["prop"] == "C04")]
+    jobs = []
     for cfg in cat:
         if algs and cfg["alg"] not in algs:
             continue
@@ -25,10 +29,9 @@ def run_catalogue(chk: Check, select, algs=None, extra_flags=None):
         flags.update(extra_flags or {})
         label = f"{cfg['alg']}/n={cfg['n']}/params={cfg['params']}"
         tl = 900.0 if chk.tier == "quick" else 3600.0
-        from nusym.runner import load_known
-
-        known = [k for k in load_known() if k.get("harness", "prop") == "prop" and (k["prop"] == chk.pid or k["prop"] == "C04")]
-        r = chk.explore("prop", dict(cfg=cfg, select=sel, known=known), label, time_limit=tl, flags=flags)
+        jobs.append(dict(key="prop", params=dict(cfg=cfg, select=sel, known=known), label=label, time_limit=tl, flags=flags, cfg=cfg))
+    for job, r in zip(jobs, chk.explore_many(jobs)):
+        cfg, label = job["cfg"], job["label"]
         if r.acc.counts.get("budget-unlisted"):
             chk.inconclusive.append(f"{label}: {r.acc.counts['budget-unlisted']} path(s) exceeded the loop budget outside every listed C04 finding (no result to judge; see check C04)")
         batch.extend(dict(w, harness="prop") for w in r.acc.validate)
